@@ -323,6 +323,30 @@ def rule_no_codepoint_narrowing(ctx):
             r.fail("%s/%s" % (f.qn.split("::")[-1], c), "%s:%d" % (f.file, xs[0]["l"]),
                    "a code point from %s() is converted to %s (%d place%s, first: `%s`): every value above 0xFF is cut to its low byte"
                    % (c, xs[0]["to"], len(xs), "s" if len(xs) > 1 else "", db.src_line(f.file, xs[0]["l"]).strip()[:70]))
+    # libc functions that take an int and convert it to char themselves: strchr(s, c) looks for (char)c - and finds the
+    # terminating NUL for c == 0
+    n_libc = 0
+    for f in sorted(db.funcs.values(), key=lambda g: (g.file, g.l0)):
+        if not f.file.startswith("src/"):
+            continue
+        for n in f.all_nodes():
+            if n["k"] != "call" or (n.get("c") or "").replace("std::", "") not in ("strchr", "strrchr", "memchr") or len(n.get("a", ())) < 2:
+                continue
+            n_libc += 1
+            x = f.nodes.get(n["a"][1])
+            while x is not None and x["k"] == "cast":
+                x = f.nodes.get(x["a"][0])
+            if x is None or x["k"] != "call" or not SRC.search(x.get("c") or ""):
+                continue
+            r.seen()
+            xs = expr_str(f, x["i"])
+            cs = [(expr_str(f, cn), pol) for cn, pol in f.guard_conds(f.nblock[n["i"]]) if cn is not None]
+            hi = any((c in (xs + " >= 128", xs + " > 127") and pol is False) or (c in (xs + " < 128", xs + " <= 127") and pol is True) for c, pol in cs)
+            lo = any((c in (xs + " <= 0", xs + " == 0", xs + " < 1") and pol is False) or (c in (xs + " > 0", xs + " != 0") and pol is True) for c, pol in cs)
+            r.check(hi and lo, "%s/%s(.., %s)" % (f.qn.split("::")[-1], n["c"], xs), db.loc(f, n),
+                    "%s() converts the code point `%s` to char and also matches the terminating NUL; the call is not controlled by "
+                    "`%s` in 1..127 (facts: %s)" % (n["c"], xs, xs, [c for c, p in cs if xs in c]))
+    r.require(n_libc >= 3, "only %d strchr/strrchr/memchr calls found" % n_libc)
     r.seen(n_conv)
     r.require(n_conv >= 30, "only %d conversions to 8-bit types in the facts: the extractor no longer records them" % n_conv)
     r.require(n_src >= 250, "only %d code point sources (UncText element accesses, TokenContext::peek/get) found" % n_src)
